@@ -124,12 +124,18 @@ def make_checker(c, problems):
 
     def check(phase, old, new, newly, seats_before, votes, total, dist):
         cast = sum(w for b, w in votes.items() if b)
-        if phase == 'count' and new == {}:
-            # elect-all-remaining shortcut: remaining candidates fill the remaining seats
+        if phase == 'count' and new == {} and not cf['mq']:
+            # elect-all-remaining shortcut (next_count returns ({}, avail_seats); impossible under mandatory_quota): it may
+            # fire only when the free seats of the continuing candidates equal the open seats, and then fills exactly those.
+            # An empty allocation can also arise from a quota election that removes the last continuing candidate - that is
+            # not the shortcut and is judged by the election rule below (false alarm corrected: DESIGN.md appendix D).
             rem = c['n'] - sum(seats_before.values())
-            if sum(newly.values()) != rem:
-                problems.append('shortcut elected %s for %d open seats' % (newly, rem))
-            return
+            caps_ = {cname(k): v for k, v in c['caps']}
+            cont0 = [k for k in old if k is not None]
+            if all(k in caps_ for k in cont0) and sum(caps_[k] - seats_before.get(k, 0) for k in cont0) == rem:
+                if sum(newly.values()) != rem:
+                    problems.append('shortcut elected %s for %d open seats' % (newly, rem))
+                return
         quota = dist._compute_quota(total, c['n'])
         if phase == 'count':
             state['quota_seats'] += sum(newly.values())
